@@ -418,6 +418,32 @@ Theorem C05_extra_separator_refuted :
 Proof. exact splitlines_refuted. Qed.
 Print Assumptions C05_extra_separator_refuted.
 
+(** the code-point level oracle of the content correspondence ([PadContentTie.raw_oracle]: the
+    output split at U+000A only has padded-height lines, = what [get_padded_size] says, every
+    line of the render unchanged on its own line) accepts EVERY output of the documented line
+    structure, whatever the margins, the padding lines and the lines of the render are made of:
+    it can only fire on an output that is not of that form *)
+From TI Require Import proofs.PadContentTieProofs.
+Theorem C05_content_oracle_accepts_line_structure :
+  forall c l t r b (lp rp line : list Z) (ils : list (list Z)),
+  gdims_of (c_g c) = (l, t, r, b) -> 0 <= t -> 0 <= b ->
+  ils <> [] -> Forall znolf ils -> znolf lp -> znolf rp -> znolf line ->
+  Z.of_nat (length ils) = g_h (c_g c) ->
+  (g_obs_dims (c_g c) = [] \/ exists a1 a2 a3 a4 a5, g_obs_dims (c_g c) = [a1; a2; a3; a4; a5; t + g_h (c_g c) + b]) ->
+  c_raw_inner c = zjoin ils ->
+  c_raw_obs c = zjoin (repeat line (Z.to_nat t) ++ map (fun ln => lp ++ ln ++ rp) ils ++ repeat line (Z.to_nat b)) ->
+  raw_wf c = true /\ raw_oracle c = true.
+Proof. exact raw_oracle_accepts_line_structure. Qed.
+Print Assumptions C05_content_oracle_accepts_line_structure.
+
+(** a verdict 0 of the content judge: well-formed case, code-point oracle, and (content in the
+    terminal model's vocabulary) the token-level judgement of [C05_fill_tie_sound] *)
+Theorem C05_content_tie_sound :
+  forall c, ccheck c = 0%nat ->
+  raw_wf c = true /\ raw_oracle c = true /\ (c_lexed c = true -> gcheck (c_g c) = 0%nat).
+Proof. exact ccheck_zero_sound. Qed.
+Print Assumptions C05_content_tie_sound.
+
 (** *** ANIMATED draws (round 6): "contains the original render unchanged at the offset dictated
     by the horizontal and vertical alignment" holds, on the screen, for EVERY frame of an
     animated [Renderable.draw].  The stream is C06's [Draw.anim_stream] (here with the distance
